@@ -99,7 +99,8 @@ UNIT = VUnit(
                         Rw("R9", r"slot\.1 != assigned", "g.slot_type(&slot) != assigned", min_matches=0),
                         # Verus has no let-chains: `if let P = E && C { B }` (no else) -> `if let P = E { if C { B } }`
                         Rw("R10", r"if let (Some\(slot\)) = (g\.find_slot\(var\))\s*&& ([^{]+?)\s*\{(.*?)\n                \}", r"if let \1 = \2 { if \3 {\4\n                } }", min_matches=0),
-                        Rw("R9", r"slot\.1 = ValueType::Dynamic;", "g.set_slot_type(&slot, DYNAMIC);", min_matches=0)],
+                        Rw("R9", r"slot\.1 = ([^;]+);", r"g.set_slot_type(&slot, \1);", min_matches=0),
+                        Rw("R12", r"ValueType::Dynamic", "DYNAMIC", min_matches=0)],
               real_name="Resolver::check_stmt (Stmt::AssignExisting arm)"),
         # if: the condition is checked and held to the boolean rule, the then-block is checked, and the else-block exactly when there is one,
         # all at the loop depth of the if itself
